@@ -288,7 +288,7 @@ pub fn run_c07(ctx: &mut Ctx) {
 
 pub fn run_c09(ctx: &mut Ctx) {
     ctx.rule("cases = same generator as C07 with adversarial price moves; oracle = check_liquidatable is None after every successful increase (min collateral validated) and after every decrease that leaves the position open; a successful liquidation implies the position was liquidatable under the liquidation thresholds just before (after the same fee-state update) and closes the whole position; non-trivial = history with a liquidation attempt or a partial decrease");
-    ctx.assume("model clauses only: the program-level clauses (liquidate requires size_delta >= size; auto-deleverage pnl-factor gating) are not executed by this check");
+    ctx.assume("the searches `health*` are the model clauses (vmarket histories); the program-level clauses (liquidate on a fresh / healthy / underwater position, update_adl_state and auto_deleverage gating) are the search `gating`, executed through the real instructions in the svm-lite exchange world");
     let n = ctx.cases(20_000, 1_000_000);
     ctx.search("health", n, || position_heavy(30), |h, rec| check_history(h, rec, Which::C09));
     ctx.floor("health:liquidation_succeeded", 50);
